@@ -390,9 +390,10 @@ func (fx *FuncVC) loadPtr(st *State, p PtrV) Val {
 			ls = append(ls, cell)
 		}
 		v := fx.build(target, ls)
-		if st.sym == nil && fx.st != nil && fx.st.sym == nil {
-			// type invariant of what was loaded (0 <= len <= cap, ...): also for loads made while
-			// evaluating a contract, e.g. of a slice field that a callee has just re-assigned
+		if st.sym == nil && fx.st != nil && fx.st.sym == nil && fx.spec != nil && fx.spec.Options["wf-loads"] != "" {
+			// option wf-loads: the type invariant of what was loaded (0 <= len <= cap, ...) is assumed also
+			// for loads made while evaluating a contract, e.g. of a slice field that a callee has just
+			// re-assigned (opt-in: the extra facts slow unrelated proofs down)
 			key := ""
 			for _, t := range ls {
 				key += t.S + "|"
@@ -400,7 +401,8 @@ func (fx *FuncVC) loadPtr(st *State, p PtrV) Val {
 			if fx.wfSeen == nil {
 				fx.wfSeen = map[string]bool{}
 			}
-			if _, isSlice := v.(SliceV); (isSlice || isStrOrStruct(v)) && !fx.wfSeen[key] {
+			// (a load under a quantifier mentions its bound variable, written name?n: nothing can be assumed about it here)
+			if _, isSlice := v.(SliceV); (isSlice || isStrOrStruct(v)) && !fx.wfSeen[key] && !strings.Contains(key, "?") {
 				fx.wfSeen[key] = true
 				fx.assumeWF(v)
 			}
